@@ -750,7 +750,9 @@ static void b_sequence(int kind, int nE, int mode, int n, const conf_t *seq, con
 		for (f = 0; f < NF; f++) {
 			if (!kind_has(kind, f)) continue;
 			if (B.view.v[f] != exp.v[f]) {
-				if (!bad[f]) vf_fail(mode == 2 ? "conf-fold-batch" : "conf-fold", "%s: consolidated %s delivered %s is %lld after push %d, the fold over the in-range values is %lld (-1 = absent) [%s service, %d endpoints, delivery by %s%s:%s; delivered %s expected %s]",
+				char sig[64];
+				snprintf(sig, sizeof sig, "conf-fold:%s", FNAME[f]);
+				if (!bad[f]) vf_fail(sig, "%s: consolidated %s delivered %s is %lld after push %d, the fold over the in-range values is %lld (-1 = absent) [%s service, %d endpoints, delivery by %s%s:%s; delivered %s expected %s]",
 				                    FNAME[f], FNAME[f], B.ndeliv ? (mode == 0 ? "to the callback" : "in the handle") : "(nothing delivered)", (long long)B.view.v[f], j + 1, (long long)exp.v[f],
 				                    kind == RP_AGGR ? "signing" : "extending", nE, mode == 0 ? "callback" : "handle", mode == 2 ? ", all pushes before the first run" : "", desc, conf_str(&B.view, kind), conf_str(&exp, kind));
 				bad[f] = 1;
@@ -798,7 +800,9 @@ static void b_multiset(int kind, int nE, int n, const conf_t *cfg, const int *ep
 			vf_count("conf_sequences", 1);
 			if (first) { ref_final = fin; first = 0; strcpy(first_order, order); }
 			else for (f = 0; f < NF; f++) if (kind_has(kind, f) && fin.v[f] != ref_final.v[f]) {
-				vf_fail("conf-order-dependent", "%s: final consolidated %s depends on the order in which the same configurations arrive: order %s gives %lld, order %s gives %lld [%s, mode %d, %d endpoints]", FNAME[f], FNAME[f], first_order, (long long)ref_final.v[f], order, (long long)fin.v[f], label, mode, nE);
+				char sig[64];
+				snprintf(sig, sizeof sig, "conf-order-dependent:%s", FNAME[f]);
+				vf_fail(sig, "%s: final consolidated %s depends on the order in which the same configurations arrive: order %s gives %lld, order %s gives %lld [%s, mode %d, %d endpoints]", FNAME[f], FNAME[f], first_order, (long long)ref_final.v[f], order, (long long)fin.v[f], label, mode, nE);
 				bad[f] |= 2;
 			}
 		} while (next_perm(p, n));
